@@ -45,7 +45,7 @@ P = {
     "level_note": (
         "The probe phase selects the member of the model family (flags truncScaled, inexactPower) that matches the tree under test; the same check "
         "passes on the unchanged tree (as written, 4 known findings) and on the tree with the two planned repairs (2 known findings left). "
-        "Tie: exhaustive grid k*10^-d, 0<=d<=4, |k| <= 2*10^5 (quick) / 6*10^6 and one block of 10^4 in seven up to 2*10^7 (thorough; beyond |k| = 2*10^6 the negative half is compared with the "
+        "Tie: exhaustive grid k*10^-d, 0<=d<=4, |k| <= 2*10^5 (quick) / 5*10^6 and one block of 10^4 in seven up to 2*10^7 (thorough; beyond |k| = 10^6 the negative half is compared with the "
         "model's answers for the positive half through the proved sign symmetry and the model's digest is computed without the run-time IsRnd assertion), random decimals up to 2^50, a directed search from 2^50 to the least failing decimals "
         "(more than one period at the start of every segment between powers of two of k and of k*10^-d, both signs), random doubles across magnitudes; "
         "the intermediate 'decimals' and 'product' columns are evaluated from the expression trees the generator scaledexpr RECOVERED FROM THE SOURCE of the tree under test (validated by the generator against the compiled code; fallback to the harness's own expressions, "
